@@ -30,10 +30,17 @@ START_URLS = [
     'http://a.test/#frag', 'http://a.test/?', 'http://a.test', 'http://a.test//double//slash',
     'http://a.test/%zz%', 'http://a.test/a;b=c', 'http://127.1/', 'http://0x7f.1:8080/x',
     'http://a.test/%2e%2e/%2E', 'http://a.test:0080/lead',
+    # hosts whose IDNA mapping produces a space or a delimiter (U+3000, U+00A8 -> " " + mark,
+    # fullwidth solidus / colon / commercial at, digit-full-stop), or that carry one encoded:
+    # either no request at all, or a well-formed one to the host the URL normalises to
+    'http://exa\u3000mple.test/', 'http://a\u00a8b.test/x', 'http://a\uff0fb.test/',
+    'http://a\uff1a81.test/', 'http://a\uff20b.test/', 'http://a\u2488b.test/',
+    'http://a%20b.test/', 'http://a\u00a0b.test/', 'http://a\u200bb.test/zw',
 ]
 LOCATIONS = ['/plain', '//b.test/sch', 'rel/../x', '?only=q', '/sp ace', '/crlf%0d%0aX-I: 1',
              'http://b.test:80/dflt', 'HTTP://B.TEST/UP', 'http://a.test:8080/#f',
-             '/ü', 'http://u2:p2@b.test/cred']
+             '/ü', 'http://u2:p2@b.test/cred', 'http://a\xa8b.test/l', 'http://b\xb4.test/l',
+             'http://b.test\xa0/nbsp', '//b\xaf.test']
 
 
 def hop_url(kind, k):
@@ -51,8 +58,10 @@ def expected_parts(url):
 
 
 def site_hosts():
+    # any_host: every other name resolves as well, so that a request to a host the URL does
+    # not name (or to a malformed one) reaches the peer and is judged instead of dying in DNS
     return {'hosts': {'a.test': {}, 'b.test': {}, 'a.test:8080': {}, 'bücher.test': {},
-                      'xn--bcher-kva.test': {}, 'proxy.test:3128': {}}}
+                      'xn--bcher-kva.test': {}, 'proxy.test:3128': {}}, 'any_host': True}
 
 
 def run_case(case, chooser=None):
@@ -128,7 +137,7 @@ def run_case_lib(case):
         from wpull.protocol.http.request import Request
         from wpull.network.pool import ConnectionPool
         from wpull.errors import NetworkError, ProtocolError, ServerError
-        Resolver = appharn.make_resolver_class(site['hosts'], net)
+        Resolver = appharn.make_resolver_class(site['hosts'], net, any_host=True)
         appharn._patch_conn_names(net)
         web_client = WebClient(Client(connection_pool=ConnectionPool(resolver=Resolver())))
 
@@ -176,7 +185,11 @@ def judge(case, out):
         cur = URLInfo.parse(case['start']).url
     except ValueError:
         return None if not reqs else 'request sent for an unparsable URL'
-    first_host = URLInfo.parse(cur).hostname
+    try:
+        first_host = URLInfo.parse(cur).hostname
+    except ValueError as e:
+        return 'the normal form of %r does not parse (%s); %d request(s) sent' % (
+            case['start'], e, len(reqs))
     plan = case['chain']
     k = -1
     for q in reqs:
@@ -197,6 +210,10 @@ def judge(case, out):
             if not re.fullmatch(r'[!#$%&\'*+.^_`|~0-9A-Za-z-]+:[ \t]*[^\r\n]*', ln):
                 return '%s: malformed header line %r' % (where, ln[:100])
             names.append(ln.split(':', 1)[0].lower())
+        hv = q['headers'].get('host', '')
+        if re.search(r'[\x00-\x20\x7f-\xff/?#@\\<>"]', hv) or not hv:
+            # RFC 7230 5.4: Host = uri-host [ ":" port ]
+            return '%s: Host value %r is not a host[:port]' % (where, hv[:80])
         # --- semantics --------------------------------------------------------------
         if case.get('post'):
             # the request that carries the form data is replayed by 307/308 only
@@ -206,7 +223,11 @@ def judge(case, out):
                 return '%s: method %s, expected %s' % (where, m.group(1), want_method)
             if want_method == 'POST' and q.get('body') != case['post']:
                 return '%s: request body %r, expected %r' % (where, q.get('body'), case['post'])
-        scheme, host, port, target, hwp = expected_parts(cur)
+        try:
+            scheme, host, port, target, hwp = expected_parts(cur)
+        except ValueError as e:
+            return '%s: a request was sent for a URL whose normal form does not parse: %s' % (
+                where, e)
         if case.get('proxy'):
             # absolute-form: the hop's normalised URL (with or without its user-info: RFC 7230
             # 2.7.1 forbids it, wpull sends it; either reading of "the absolute URL" passes)
